@@ -5717,7 +5717,10 @@ evdns_getaddrinfo_gotresolve(int result, char type, int count,
 			else
 				res = evutil_addrinfo_append_(
 				    data->pending_result, res);
-			res_ttl = data->pending_result_ttl;
+			/* the merged answer is only as fresh as its
+			 * shortest-lived part */
+			if (data->pending_result_ttl < res_ttl)
+				res_ttl = data->pending_result_ttl;
 			data->pending_result = NULL;
 		}
 
